@@ -10,5 +10,5 @@ clean:
 .PHONY: audit
 audit: coq
 	mkdir -p audit
-	cd coq && timeout 3000 coqchk -silent -o -Q . DF $$(ls Props/*.vo | sed 's#/#.#;s#\.vo$$##;s#^#DF.#') | tee ../audit/coqchk.txt
+	cd coq && timeout 3000 coqchk -silent -o -Q . DF $$(ls Props/*.vo | sed 's#/#.#;s#\.vo$$##;s#^#DF.#') 2>&1 | tee ../audit/coqchk.txt
 	(grep -rnE '\b(Admitted|admit|Axiom|Parameter|Conjecture)\b|Admit Obligations|Unset Guard|Unset Positivity|Unset Universe|bypass_check|type-in-type|impredicative-set' coq --include='*.v' --include='_CoqProject' || echo 'no forbidden declaration') | tee audit/forbidden.txt
